@@ -185,7 +185,7 @@ def gen_map_scenarios(rng, count, tier, kinds=('map', 'map_unordered', 'imap', '
             call['ndim'] = rng.choice([1, 2])
         if force:
             force(pool, call, rng)
-        scens.append({'id': f's{k}', 'pool': pool, 'calls': [call], 'budget': 60 if sm in ('fork', 'threading') else 90})
+        scens.append({'id': f's{k}', 'pool': pool, 'calls': [call], 'budget': 45 if sm in ('fork', 'threading') else 70})
     return scens
 
 
